@@ -2,10 +2,10 @@
 # seedtest.sh <seed_id> <PROP> [<PROP>...]
 # Runs the quick checks of the given properties against a seeded change, in a scratch copy
 # (/tmp/seedrun: worktree of /repo HEAD + copy of /verif with path deps rewritten), so that
-# /repo itself is never modified and development can continue. Appends to /tmp/seedrun/results.jsonl
+# (or $SEEDRUN_DIR, for parallel slots) /repo itself is never modified and development can continue. Appends to /tmp/seedrun/results.jsonl
 set -u
 SID=$1; shift
-S=/tmp/seedrun
+S=${SEEDRUN_DIR:-/tmp/seedrun}
 mkdir -p $S
 exec 9>$S/lock; flock 9
 HEAD=$(git -C /repo rev-parse HEAD)
